@@ -157,6 +157,16 @@ def gen_adaptive(ctx, binary):
             ops.append("ad %s %s %s %d %d %d %d %d | %s | %s" % (ch, meth, d, w, h, k, cst, mx, plane(px), " ".join(t.split())))
     return ops
 
+def with_geo(r, op):
+    """append the view-geometry word @<src><dst> (see harness GV): f whole image (1-d traversable), w legacy window, s sub-view of a
+    larger guard-filled canvas, y / z = f / s upside down, x (threshold u8_u8 only) sub-view mirrored left-right (x-stepped view type)"""
+    kind = op.split(None, 1)[0]
+    letters = "fswyz" + ("x" if kind == "th" and " u8_u8 " in op else "")
+    g = r.choice(letters) + r.choice(letters)
+    if r.chance(1, 4): g = "f" + r.choice("sz")           # contiguous source into a non-contiguous destination (ROI of a larger image)
+    head, sep, rest = op.partition(" |")
+    return head + " @" + g + sep + rest
+
 def nontrivial(op):
     w = op.split(None, 8)
     if w[0] == "th": return int(w[4]) * int(w[5]) > 0
@@ -172,6 +182,7 @@ ASSUME = [
     "multi-channel pixels are processed channel by channel (nth_channel_view / static_transform): observed through rgb8 / rgb16 / planar rgb8, not proven",
     "morphology and median are exercised on non-empty images only (their implementations start with nth_channel_view / extend_boundary, which are not defined for empty views); thresholds and Otsu include all empty shapes",
     "threshold_adaptive: the local threshold surface is computed in float (1/k weights, Gaussian weights) and truncated to the channel type; the judge checks it against exact-integer bounds (mean: S - 2k^2 <= k^2 T <= S for the zero-padded box sum S; gaussian: window min - 1 <= T <= window max), not bit-exactly; the per-pixel comparison against (T - constant) is exact (translated functor, theorem C16_adaptive_functor)",
+    "view geometry: every op runs with a randomly chosen memory layout of source and destination (whole image, window, sub-view of a larger guard-filled canvas, upside-down; mirrored x-stepped views for threshold u8->u8 only); the frame clause is checked by the harness on the canvas of every destination; the model is layout-free by construction (planes indexed by logical coordinates)",
     "channel types: uint8, int8, uint16, int16 (the property's 8- and 16-bit, signed and unsigned); (source,result) pairs of the threshold functors: the four same-type pairs, u16->u8, u8->i16",
 ]
 
@@ -194,6 +205,7 @@ def run(ctx, ops=None):
     if ops is None:
         ops = gen_ops(ctx)
         if "PT_E" in bins: ops += gen_adaptive(ctx, bins["PT_E"])
+        ops = [with_geo(ctx.rng, o) for o in ops]
     samples, kinds = [], {}
     for d, kind in sorted(TUS.items()):
         g = [o for o in ops if o.startswith(kind + " ")]
